@@ -44,7 +44,9 @@ type opRec struct {
 	val       int // value written / value read
 	ok        bool
 	inv, resp int64
-	begin     int64 // dispatcher step (0 = never seen)
+	stamp     int    // write: seconds of the client supplied source timestamp (0 = none)
+	rng       string // read: IndexRange
+	begin     int64  // dispatcher step (0 = never seen)
 	end       int64
 	errText   string
 }
@@ -68,8 +70,8 @@ func opID(req ua.Request) int {
 		}
 	case *ua.WriteRequest:
 		if len(r.NodesToWrite) == 1 && r.NodesToWrite[0].Value != nil && r.NodesToWrite[0].Value.Value != nil {
-			if v, ok := r.NodesToWrite[0].Value.Value.Value().(int32); ok {
-				return int(v)
+			if v, ok := r.NodesToWrite[0].Value.Value.Value().([]int32); ok && len(v) > 0 {
+				return int(v[0])
 			}
 		}
 	}
@@ -304,7 +306,7 @@ func main() {
 		return
 	}
 	defer d.Close()
-	r.Rule = "case = one concurrent history: 4 real clients (own connection and session) x 16 operations (read / write of the Value attribute, unique values) over 3 fresh shared nodes, all events stamped by one atomic logical clock; the merged trace (invocation, hooked dispatcher step, response) must be accepted by Linear.mrun over the attribute service model and the results must equal Access.run in dispatcher order; oracle: exhaustive linearizability search on the client-side history per node; distinct by the whole trace"
+	r.Rule = "case = one concurrent history: 4 real clients (own connection and session) x 16 operations (read / write of the Value attribute; unique array values [id,id], half of the writes with a non-monotone client source timestamp, a quarter of the reads with an IndexRange, MaxAge = operation id) over 3 fresh shared nodes, all events stamped by one atomic logical clock; the merged trace (invocation, hooked dispatcher step, response) must be accepted by Linear.mrun over the attribute service model and the results must equal Access.run in dispatcher order; oracle: exhaustive linearizability search on the client-side history per node; distinct by the whole trace"
 
 	if o.Replay != "" {
 		if k, ops, ok := parseTrace(o.Replay); ok {
@@ -399,7 +401,7 @@ func main() {
 		for k := range ids {
 			nextNode++
 			ids[k] = ua.NewNumericNodeID(ns.ID(), nextNode)
-			ns.AddNode(server.NewVariableNode(ids[k], fmt.Sprintf("n%d", nextNode), int32(0)))
+			ns.AddNode(server.NewVariableNode(ids[k], fmt.Sprintf("n%d", nextNode), []int32{0, 0}))
 		}
 		plans := make([][]*opRec, nClients)
 		for c := range plans {
@@ -411,6 +413,11 @@ func main() {
 				}
 				if op.write {
 					op.val = op.id
+					if rnd.Chance(50) {
+						op.stamp = 1 + rnd.Intn(1000)
+					}
+				} else if rnd.Chance(25) {
+					op.rng = []string{"0", "1", "0:1"}[rnd.Intn(3)]
 				}
 				plans[c] = append(plans[c], op)
 			}
@@ -427,8 +434,14 @@ func main() {
 				<-start
 				for _, op := range plans[c] {
 					if op.write {
-						req := &ua.WriteRequest{NodesToWrite: []*ua.WriteValue{{NodeID: ids[op.node], AttributeID: ua.AttributeIDValue,
-							Value: &ua.DataValue{EncodingMask: ua.DataValueValue, Value: ua.MustVariant(int32(op.val))}}}}
+						// the value is the array [id, id]; some writes carry a client side source
+						// timestamp, and those are not monotone (clients with skewed clocks)
+						dv := &ua.DataValue{EncodingMask: ua.DataValueValue, Value: ua.MustVariant([]int32{int32(op.val), int32(op.val)})}
+						if op.stamp != 0 {
+							dv.EncodingMask |= ua.DataValueSourceTimestamp
+							dv.SourceTimestamp = time.Date(2024, 1, 1, 0, 0, 0, 0, time.UTC).Add(time.Duration(op.stamp) * time.Second)
+						}
+						req := &ua.WriteRequest{NodesToWrite: []*ua.WriteValue{{NodeID: ids[op.node], AttributeID: ua.AttributeIDValue, Value: dv}}}
 						op.inv = clock.Add(1)
 						resp, err := clients[c].Write(ctx, req)
 						op.resp = clock.Add(1)
@@ -439,14 +452,24 @@ func main() {
 						}
 					} else {
 						req := &ua.ReadRequest{MaxAge: float64(op.id), TimestampsToReturn: ua.TimestampsToReturnNeither,
-							NodesToRead: []*ua.ReadValueID{{NodeID: ids[op.node], AttributeID: ua.AttributeIDValue}}}
+							NodesToRead: []*ua.ReadValueID{{NodeID: ids[op.node], AttributeID: ua.AttributeIDValue, IndexRange: op.rng}}}
 						op.inv = clock.Add(1)
 						resp, err := clients[c].Read(ctx, req)
 						op.resp = clock.Add(1)
 						if err != nil || len(resp.Results) != 1 {
 							op.errText = fmt.Sprint(err)
-						} else if v, ok := resp.Results[0].Value.Value().(int32); ok && resp.Results[0].Status == ua.StatusOK {
-							op.ok, op.val = true, int(v)
+						} else if v, ok := resp.Results[0].Value.Value().([]int32); ok && resp.Results[0].Status == ua.StatusOK {
+							// every value ever written is [x, x]; a ranged read may legitimately return
+							// a part of it; anything else is a value nobody wrote
+							op.ok = true
+							switch {
+							case len(v) == 2 && v[0] == v[1]:
+								op.val = int(v[0])
+							case op.rng != "" && len(v) == 1:
+								op.val = int(v[0])
+							default:
+								op.val = -1000 - len(v)
+							}
 						}
 					}
 				}
